@@ -23,6 +23,7 @@ import Pandora.Proofs.C13Jsonline
 import Pandora.Proofs.C13Grpc
 import Pandora.Proofs.C13Cfg
 import Pandora.Proofs.C13Csv
+import Pandora.Proofs.C13R6
 import Pandora.Bridge.C13
 
 namespace Pandora.Props.C13
@@ -340,6 +341,8 @@ def huge : Bytes := [57, 57, 57, 57, 57, 57, 57, 57, 57, 57, 57, 57, 57, 57, 32,
 def rawGood : Bytes := [49, 54, 32, 116, 49, 10, 71, 69, 84, 32, 47, 32, 72, 84, 84, 80, 47, 49, 46, 48, 10, 10, 10]
 /-- `16 t1` (a size line cut before its newline) -/
 def rawCutLine : Bytes := [49, 54, 32, 116, 49]
+/-- `r1(1048575)` -/
+def r1Huge : Bytes := [114, 49, 40, 49, 48, 52, 56, 53, 55, 53, 41]
 /-- `-5 t\n` -/
 def rawNeg : Bytes := [45, 53, 32, 116, 10]
 /-- `[A: b]\n/a t` -/
@@ -1659,5 +1662,117 @@ example : readCsvModel true true (fun c => if c == 59 then some [[[97], [98]]] e
 example : readCsvModel true true (fun _ => none) false [] [[120]] = .err "csv" := by decide
 example : readCsvModel true true (fun _ => some []) true [10] [] = .err "delim" := by decide
 example : Gen.C13Src.csvRecordGuard 0 1 ∧ ¬ Gen.C13Src.csvRecordGuard 1 1 := by decide
+
+/-! ## round 6
+
+### nothing is allocated in proportion to an announced repeat count (1eaf10a, 4cfc662, 28b7d1e)
+
+Until round 5 "memory proportional to an announced repeat count" was an assumption of this check; the code now bounds all
+three (`name(n)` in a request list, scenario weights, `randString(n)`) and the assumption is gone: `C13_no_panic_spread` and
+`C13_no_panic_randString` above hold for EVERY input, `C13_spread_bounded` / `C13_randString_bounded` give the bounds, and: -/
+
+/-- EVERY request list, every registry: `convertScenarioToAmmo` returns an error or at most `MaxScenarioRequests` requests -
+`r1(99999999999)` is an error value, not an append loop that exhausts the memory -/
+theorem C13_expand_bounded (known : Bytes → Bool) (reqs : List Bytes) (steps : List ScnStep)
+    (h : expand true known reqs = .ok steps) : (steps.length : Int) ≤ maxScenarioRequests :=
+  expandGo_bounded known reqs [] steps (by decide) h
+
+/-- "absurdly large sizes … rejected with an error": a repeat count above what is left of the bound ends the conversion with an
+error, wherever the item stands in the list and whatever follows it -/
+theorem C13_rejected_too_many_requests (known : Bytes → Bool) (pre : List Bytes) (sh : Bytes) (rest : List Bytes)
+    (out : List ScnStep) (name : Bytes) (cnt sl : Int)
+    (hpre : expand true known pre = .ok out) (h : parseShootName sh = .ok ⟨name, cnt, sl⟩)
+    (hn : name ≠ sleepName) (hk : known name = true) (hbig : cnt > maxScenarioRequests - (out.length : Int)) :
+    expand true known (pre ++ sh :: rest) = .err "too-many-requests" := by
+  unfold expand at hpre ⊢
+  rw [expandGo_append true known pre (sh :: rest) [] out hpre]
+  unfold expandGo
+  simp [h, hn, hk, hbig]
+
+/-- the unrepaired conversion (before 1eaf10a) builds whatever is announced: no bound holds -/
+theorem C13_expand_bounded_counterexample :
+    ¬ ∀ (known : Bytes → Bool) (reqs : List Bytes) (steps : List ScnStep),
+      expand false known reqs = .ok steps → (steps.length : Int) ≤ 3 := by
+  intro h; have := h Ex.knownR1 [Ex.r1x2, Ex.r1x2] _ rfl; revert this; decide
+
+/-- … about the code as it stands: the regenerated tests in front of the append loops (http and grpc) refuse exactly the
+counts `expandGo` refuses, the regenerated `CheckSpread` is `checkSpread` and both `decodeAmmo` call it before their `make`,
+the regenerated `randString` is `randStringLen`, and the three constants are the model's -/
+theorem C13_bounded_allocation_source (cnt built : Int) (counts : List Int) (total n : Int) :
+    (Gen.C13Src.httpRepeatRefused cnt built ↔ cnt > maxScenarioRequests - built) ∧
+    (Gen.C13Src.grpcRepeatRefused cnt built ↔ cnt > maxScenarioRequests - built) ∧
+    Gen.C13Src.httpDecodeAmmoChecksSpread = true ∧ Gen.C13Src.grpcDecodeAmmoChecksSpread = true ∧
+    (checkSpread counts total = true ↔ (Gen.C13Src.checkSpreadTotal total ∨ ∃ c ∈ counts, Gen.C13Src.checkSpreadCount c)) ∧
+    (∀ k, Gen.C13Src.randStringLen n = .ok k → 0 < k ∧ k ≤ Gen.C13Src.maxRandStringLength) ∧
+    (Gen.C13Src.randStringLen n).returns = true := by
+  have hr := Bridge.C13.repeatRefused_bridge cnt built
+  have hc := Bridge.C13.checkSpread_bridge counts total
+  refine ⟨hr.1, hr.2, hc.1, hc.2.1, hc.2.2, ?_, ?_⟩
+  · intro k hk
+    rw [Bridge.C13.randStringLen_bridge] at hk
+    rcases randStringLen_fixed n with ⟨_, h⟩ | ⟨h0, h⟩ | ⟨h0, h1, h⟩ | ⟨_, h⟩ <;> rw [h] at hk <;>
+      simp [Bridge.C13.eraseErr, Res.bind] at hk
+    · subst hk; decide
+    · subst hk; rw [Bridge.C13.maxRandStringLength_bridge]; omega
+  · rw [Bridge.C13.randStringLen_bridge, Bridge.C13.eraseErr_returns]
+    rcases randStringLen_fixed n with ⟨_, h⟩ | ⟨_, h⟩ | ⟨_, _, h⟩ | ⟨_, h⟩ <;> rw [h] <;>
+      simp [Res.bind, Res.returns, Res.isPanic, Res.isFatal]
+
+/- non-vacuity: a list that expands, one whose second item exceeds what is left, weights and lengths around the bounds -/
+example : expand true Ex.knownR1 [Ex.r1x2, Ex.r1] = .ok [(Ex.r1, 50), (Ex.r1, 50), (Ex.r1, 0)] := by decide
+example : parseShootName Ex.r1Huge = .ok ⟨Ex.r1, 1048575, 0⟩ ∧ Ex.knownR1 Ex.r1 = true ∧ Ex.r1 ≠ sleepName ∧
+    (1048575 : Int) > maxScenarioRequests - (([(Ex.r1, 50), (Ex.r1, 50)] : List ScnStep).length : Int) := by decide
+example : spread true [16777217, 1] = .err "spread" ∧ spread true [16777215, 1] = .ok [16777215, 1] ∧
+    spread true [9223372036854775807, 9223372036854775807, 2] = .err "spread" := by decide
+example : randStringLen true 16777216 = .ok 16777216 ∧ randStringLen true 16777217 = .err "length" := by decide
+
+/-! ### the end of `Run`: "never makes a provider … block forever", seen from the instances
+
+An instance waits in `Acquire` (`<-sink`, no context) and is released by an entry or by the close of the sink; `Run` closes the
+sink in a `defer`, which covers the return paths AFTER the `defer` statement only. -/
+
+/-- a `Run` whose closing defer stands in front of every statement that may return: at EVERY return (every fault point `k`:
+the file cannot be opened, a read fails, the context is cancelled, the regular end) the sink is closed, and an instance that
+acquires afterwards - whatever is still buffered - is told "no more ammo" after exactly the buffered entries, never blocked -/
+theorem C13_acquire_returns_after_run (l : List RunStmt) (h : closesOnEveryReturn l = true) (k : Nat) (closed : Bool)
+    (hk : closedAtReturn l k false = some closed) (buffered : Nat) :
+    drainAfterRun (buffered + 1) ⟨buffered, closed⟩ = some buffered := by
+  have := closesOnEveryReturn_sound l h k false closed hk
+  subst this
+  exact drain_closed buffered (buffered + 1) (by omega)
+
+/-- the full statement for an arbitrary `Run` is false: one `return` in front of the defer (the seeded change C13-r6-3: the
+open of the ammo file moved above `defer close(p.Sink)`) and every instance blocks for ever, with any fuel -/
+def C13_acquire_returns_after_run_statement : Prop :=
+  ∀ (l : List RunStmt) (k : Nat) (closed : Bool), closedAtReturn l k false = some closed →
+    ∀ buffered, ∃ fuel, drainAfterRun fuel ⟨buffered, closed⟩ ≠ none
+
+theorem C13_acquire_returns_after_run_counterexample : ¬ C13_acquire_returns_after_run_statement := by
+  intro h
+  obtain ⟨fuel, hf⟩ := h [.other, .mayReturn, .deferClose, .other, .mayReturn] 0 false rfl 0
+  exact hf (drain_open 0 fuel)
+
+/-- exactly the lists accepted by `closesOnEveryReturn` are safe: any other has a return that leaves the sink open -/
+theorem C13_run_close_complete (l : List RunStmt) (h : closesOnEveryReturn l = false) (buffered fuel : Nat) :
+    closedAtReturn l 0 false = some false ∧ drainAfterRun fuel ⟨buffered, false⟩ = none :=
+  ⟨closesOnEveryReturn_complete l h, drain_open buffered fuel⟩
+
+/-- … about the code as it stands (regenerated statement lists of `Run` of the grpc provider base, the http provider,
+`DecodeProvider` and the scenario provider): whichever return is taken, `Acquire` returns afterwards -/
+theorem C13_acquire_returns_after_run_source (k : Nat) (closed : Bool) (buffered : Nat) :
+    (closedAtReturn Gen.C13Src.grpcRunStmts k false = some closed → drainAfterRun (buffered + 1) ⟨buffered, closed⟩ = some buffered) ∧
+    (closedAtReturn Gen.C13Src.httpRunStmts k false = some closed → drainAfterRun (buffered + 1) ⟨buffered, closed⟩ = some buffered) ∧
+    (closedAtReturn Gen.C13Src.decodeRunStmts k false = some closed → drainAfterRun (buffered + 1) ⟨buffered, closed⟩ = some buffered) ∧
+    (closedAtReturn Gen.C13Src.scenarioRunStmts k false = some closed → drainAfterRun (buffered + 1) ⟨buffered, closed⟩ = some buffered) := by
+  obtain ⟨h1, h2, h3, h4⟩ := Bridge.C13.runClosesSink_bridge
+  exact ⟨fun hk => C13_acquire_returns_after_run _ h1 k closed hk buffered,
+    fun hk => C13_acquire_returns_after_run _ h2 k closed hk buffered,
+    fun hk => C13_acquire_returns_after_run _ h3 k closed hk buffered,
+    fun hk => C13_acquire_returns_after_run _ h4 k closed hk buffered⟩
+
+/- non-vacuity: the grpc `Run` has two returns (the failed open, the end of `start`), both after the defer; three entries buffered -/
+example : closedAtReturn Gen.C13Src.grpcRunStmts 0 false = some true ∧ closedAtReturn Gen.C13Src.grpcRunStmts 1 false = some true ∧
+    closedAtReturn Gen.C13Src.grpcRunStmts 2 false = none := by decide
+example : drainAfterRun 4 ⟨3, true⟩ = some 3 ∧ drainAfterRun 100 ⟨3, false⟩ = none := by decide
 
 end Pandora.Props.C13
